@@ -788,6 +788,52 @@ func (env *Env) call(x *SExpr) *SVal {
 		v := arg(0)
 		arr := e.byteRegion(env.st, e.slObj(v.T))
 		return &SVal{T: c.App("str_of_bytes", smt.BV(StrW), arr, e.slOff(v.T), e.slLen(v.T)), Typ: types.Typ[types.String]}
+	case "strle":
+		// strle(a, b): a <= b in the byte order of Go strings (uninterpreted total order, see the sort.Strings model)
+		a, b := arg(0), arg(1)
+		if !isString(a.Typ) || !isString(b.Typ) {
+			sfail("strle() wants strings")
+		}
+		return &SVal{T: c.App("str_le", smt.Bool, env.val(a).T, env.val(b).T), Typ: boolT}
+	case "strbyte":
+		a, i := arg(0), arg(1)
+		if !isString(a.Typ) {
+			sfail("strbyte() wants a string")
+		}
+		return &SVal{T: c.App("strbyte", smt.BV(8), env.val(a).T, env.val(i).T), Typ: types.Typ[types.Uint8]}
+	case "strlen":
+		a := arg(0)
+		if !isString(a.Typ) {
+			sfail("strlen() wants a string")
+		}
+		return &SVal{T: c.App("strlen", smt.BV(64), env.val(a).T), Typ: u64}
+	case "rangecount", "rangeseen":
+		// rangecount(n): entries handed out so far by the n-th map iteration of the function; rangeseen(n, k): key k
+		// was handed out by it
+		if env.fr == nil {
+			sfail("%s() outside a function body", x.Name)
+		}
+		if len(x.Args) < 1 || x.Args[0].Kind != "num" {
+			sfail("%s(): the iteration ordinal must be a literal", x.Name)
+		}
+		nOrd := x.Args[0].Num.Int64()
+		base := fmt.Sprintf("iter:%s#%d", fnName(env.fr.Fn), nOrd)
+		if x.Name == "rangecount" {
+			hs := e.hsorts[base+":count"]
+			if hs == nil {
+				sfail("no map iteration #%d in %s", nOrd, fnName(env.fr.Fn))
+			}
+			return &SVal{T: e.heap(env.st, base+":count", hs), Typ: u64}
+		}
+		hs := e.hsorts[base+":seen"]
+		if hs == nil {
+			sfail("no map iteration #%d in %s", nOrd, fnName(env.fr.Fn))
+		}
+		kv := env.val(env.ev(x.Args[1]))
+		if kv.T == nil || kv.T.Sort.String() != hs.Idx.String() {
+			sfail("rangeseen(): key has the wrong type")
+		}
+		return &SVal{T: c.Select(e.heap(env.st, base+":seen", hs), kv.T), Typ: boolT}
 	case "loopfresh":
 		// loopfresh(x): x was allocated during the loop (only inside loop invariants)
 		if env.loopAlloc == nil {
